@@ -3,7 +3,7 @@
    NumPy (element casts, dtype inference) is a family of Section variables: every statement holds for EVERY table. *)
 From Coq Require Import ZArith List Bool String Ascii.
 Import ListNotations.
-Require Import PyBase Container ContainerFacts ContainerExamples.
+Require Import PyBase Container ContainerFacts ContainerExamples Alias AliasFacts.
 Open Scope string_scope.
 Open Scope list_scope.
 Open Scope nat_scope.
@@ -86,6 +86,19 @@ Section C09.
     add_variable pycast arrcast infer astype_dt name value dt s = (s', Ret u) ->
     index s' = index s ++ [name] /\ names s' = names s ++ (match kind s with CVC => [] | _ => [name] end).
   Proof. exact (add_variable_appends pycast arrcast infer astype_dt name value dt s s' u). Qed.
+
+  (* the rows of `values` are pairwise different variables on every reachable object: `names` of a model holds no name twice
+     (the constructor checks NAMES, add_variable only appends names that are not variables yet) *)
+  Theorem C09_init_model_names k sp st d default NAMES kwargs s u :
+    init_model pycast arrcast infer astype_dt k sp st d default NAMES kwargs = (s, Ret u) -> names s = NAMES /\ NoDup NAMES.
+  Proof. exact (init_model_names pycast arrcast infer astype_dt k sp st d default NAMES kwargs s u). Qed.
+
+  Theorem C09_reachable_unique_names ops s :
+    Inv s -> (kind s <> CVC -> NoDup (names s)) -> (kind (run ops s) <> CVC -> NoDup (names (run ops s))).
+  Proof. exact (reachable_invU pycast arrcast infer astype_dt itemseq_exn ops s). Qed.
+
+  Theorem C09_row_names_nodup s : Inv s -> (kind s <> CVC -> NoDup (names s)) -> NoDup (row_names s).
+  Proof. exact (row_names_nodup s). Qed.
 
   (* values = rows-by-periods stack in declaration order, never raises; size = its element count *)
   Theorem C09_values_stack s :
@@ -250,6 +263,9 @@ Print Assumptions C09_dtype_as_created.
 Print Assumptions C09_span_kept.
 Print Assumptions C09_declaration_order_kept.
 Print Assumptions C09_add_variable_appends.
+Print Assumptions C09_init_model_names.
+Print Assumptions C09_reachable_unique_names.
+Print Assumptions C09_row_names_nodup.
 Print Assumptions C09_values_stack.
 Print Assumptions C09_values_setter_array_content.
 Print Assumptions C09_failed_single_assignment_no_change.
